@@ -30,6 +30,28 @@ CLAIMS = {
             "each outcome with the declarative notation (alarm) and the transcription (drift).",
             "bounded string length and alphabets; serde_yaml, regex and tree-sitter parsing of the tiny host programs are trusted",
             "DESIGN.md section 3 C20"),
+    "C02": ("model_checking",
+            "transcribed matcher (Match.tla) model-checked by TLC on all cut patterns of bounded sibling lists; "
+            "TLC-generated cuts and textual cuts in a 23-language corpus replayed in the real matcher and judged by TLC",
+            "MC_C02 enumerates every candidate sibling list (bounded), every set of named children turned into distinct "
+            "holes and every trailing run turned into $$$W, at 5 strictness levels, and checks that the transcription of "
+            "match_tree matches with exact bindings. The same cuts (rendered as JavaScript) and holes cut textually in "
+            "error-free nodes of all 23 corpus languages are run through the real Pattern::match_node; Trace_Match "
+            "checks the premise (pattern has the shape of the code) and the exact bindings, and compares the "
+            "transcription's prediction with the real verdict and environment (drift).",
+            "tree-sitter parses are the reference; bounded lists/one nesting level in the model; finite corpus",
+            "DESIGN.md section 3 C02"),
+    "C03": ("model_checking",
+            "declarative legal-alignment relation (Align.tla) vs transcribed matcher (Match.tla) model-checked by TLC on "
+            "the near-miss space; real match outcomes (TLC-generated pairs + corpus near misses) re-judged by the relation in TLC",
+            "Align.tla defines, from the documented strictness table, when an alignment of pattern and node is legal "
+            "(backtracking search, no iterators). MC_C03 checks Match => Legal for every goal list x candidate list in "
+            "the bounds x 5 levels. The pairs (and patterns cut at one corpus site run against other nodes of the same "
+            "kind, 23 languages) are executed by the real matcher; every reported match must be Legal on the real "
+            "projected tables and every reported match length must end on a descendant boundary inside the node.",
+            "tree-sitter parses are the reference; Legal is deliberately looser than the algorithm where the "
+            "documentation is silent (issue-1688 empty child list, optional anonymous tokens after an ellipsis)",
+            "DESIGN.md section 3 C03"),
 }
 
 NOT_YET = "check not built yet in this round (construction order in DESIGN.md section 9); not claimed until it runs"
